@@ -22,12 +22,15 @@ class ModelBackend(CryptoBackend):
         self.encrypted_for = []
         self.signed = []
         self.fail_encrypt = False
+        self.vault = {}
 
     def version(self):
         return "1.2.33"
 
     def sign_statement(self, statement, node_name, key_file, node_id, id_attr):
         self.signed.append((node_name, node_id))
+        if isinstance(statement, bytes):
+            return statement.decode("utf-8")
         return "%s" % statement
 
     def validate_signature(self, *a, **k):
@@ -40,7 +43,7 @@ class ModelBackend(CryptoBackend):
             raise EncryptError("model: tool produced no output")
         if isinstance(statement, SamlBase):
             statement = pre_encrypt_assertion(statement)
-        text = "%s" % statement
+        text = statement.decode("utf-8") if isinstance(statement, bytes) else "%s" % statement
         root = ET.fromstring(text)
         steps = _steps(node_xpath or ASSERT_XPATH)
         # resolve the path of local names from the root
@@ -59,12 +62,28 @@ class ModelBackend(CryptoBackend):
         cd = ET.SubElement(ed, "{%s}CipherData" % ENC_NS)
         cv = ET.SubElement(cd, "{%s}CipherValue" % ENC_NS)
         self.encrypted_for.append(enc_key)
-        cv.text = "Q0lQSEVSVEVYVFRPS0VO"
+        token = "Q0lQSEVSVEVYVFRPS0VO" + ("%04d" % len(self.vault))
+        cv.text = token
+        self.vault[token] = node
         parent.insert(idx, ed)
         return ET.tostring(root, encoding="unicode")
 
     def decrypt(self, enctext, key_file, id_attr):
-        return ""
+        """xmlsec1 --decrypt replaces each EncryptedData it can open with its plaintext."""
+        root = ET.fromstring(enctext)
+        done = 0
+        for parent in list(root.iter()):
+            for i, ch in enumerate(list(parent)):
+                if ch.tag == "{%s}EncryptedData" % ENC_NS:
+                    cv = ch.find("{%s}CipherData/{%s}CipherValue" % (ENC_NS, ENC_NS))
+                    tok = (cv.text or "").strip() if cv is not None else ""
+                    if tok in self.vault:
+                        parent.remove(ch)
+                        parent.insert(i, self.vault[tok])
+                        done += 1
+        if not done:
+            return ""
+        return ET.tostring(root, encoding="unicode")
 
     def encrypt(self, text, recv_key, template, key_type):
         raise Exception("not used")
